@@ -104,7 +104,13 @@ def tagged_node(name, params, outs, log, defaults=None, emit=(), wait_for=(), ca
     """
     defaults = defaults or {}
     wiring = list(params)
-    if rename_mode:  # the callable's own parameter names differ from the wiring names; renamed at construction or late
+    if rename_mode == "late_swap" and len(wiring) >= 2:
+        # the callable's first two parameters carry each other's wiring names; one parallel swap puts them right
+        params = [wiring[1], wiring[0]] + wiring[2:]
+        defaults = {params[wiring.index(p)]: v for p, v in defaults.items()}
+    elif rename_mode == "late_swap":
+        rename_mode = None
+    elif rename_mode:  # the callable's own parameter names differ from the wiring names; renamed at construction or late
         params = [f"{p}_in" for p in wiring]
         defaults = {f"{p}_in": v for p, v in defaults.items()}
     body = [f"_LOG.calls.append(({name!r}, {{{', '.join(f'{w!r}: {p}' for w, p in zip(wiring, params))}}}))"]
@@ -135,6 +141,10 @@ def tagged_node(name, params, outs, log, defaults=None, emit=(), wait_for=(), ca
     if rename_mode == "ctor":
         return FunctionNode(fn, name=name, output_name=out_name if outs else None, cache=cache, rename_inputs=dict(zip(params, wiring)), **kw)
     nd = FunctionNode(fn, name=name, output_name=out_name if outs else None, cache=cache, **kw)
+    if rename_mode == "late_swap":
+        nd.defaults, nd.parameter_annotations  # noqa: B018
+        Graph([nd])
+        return nd.with_inputs({params[0]: params[1], params[1]: params[0]})
     if rename_mode == "late" and params:
         # use the node first (forces its cached views), then rename: the derived node must follow the new names
         nd.defaults, nd.parameter_annotations  # noqa: B018
